@@ -641,6 +641,7 @@ func (x *Exec) stepValue(st *State, ins ssa.Instruction, v ssa.Value) bool {
 			es := sortOf(t)
 			name := "cell." + es
 			st.setH(name, es, store(st.H(name, es), ref, x.zeroTerm(es)))
+			st.cells = append(st.cells, cellRec{ptr: ref, es: es, alloc: i})
 			set(term(ref, SInt, i.Type()))
 		}
 	case *ssa.FieldAddr:
@@ -748,6 +749,25 @@ func (x *Exec) stepValue(st *State, ins ssa.Instruction, v ssa.Value) bool {
 		}
 		ref := x.allocRef(st, "closure")
 		st.assume(eq(app("codeOf", ref), num(int64(x.v.funcID(shortName(i.Fn.(*ssa.Function)))))))
+		if ccon := x.v.cf.Funcs[calleeName(i.Fn.(*ssa.Function))]; ccon != nil && len(ccon.Captures) > 0 && len(st.frames) == 1 {
+			cfn := i.Fn.(*ssa.Function)
+			vars := map[string]Val{}
+			for k, fv := range cfn.FreeVars {
+				if k < len(binds) {
+					vars[fv.Name()] = binds[k]
+				}
+			}
+			cenv := &Env{x: x, st: st, old: nil, vars: vars, entry: st.entry}
+			for k, cl := range ccon.Captures {
+				g, err := cenv.evalBool(cl.E)
+				if err != nil {
+					x.errorf("%s: captures %q of %s: %v", x.shortFn(x.fn), cl.Src, shortName(cfn), err)
+					continue
+				}
+				x.emit(st, "pre", "closure-inv@"+lastSeg(shortName(cfn))+"."+clauseName(cl, k), g, x.tagsOf(cl.Tags),
+					"invariant of the closure holds where it is made: "+cl.Src, i.Pos())
+			}
+		}
 		set(Val{K: VClosure, Fn: i.Fn.(*ssa.Function), Bind: binds, Ty: i.Type(), T: ref, S: SInt})
 	case *ssa.Call:
 		return x.doCall(st, i)
@@ -1483,6 +1503,8 @@ func (x *Exec) loopEnter(st *State, ord int, from, to *ssa.BasicBlock) bool {
 		g, err := env2.evalBool(inv.E)
 		if err == nil {
 			st.assume(g)
+		} else {
+			x.errorf("%s loop %d invariant %q at the loop head: %v", shortName(fr.fn), ord, inv.Src, err)
 		}
 	}
 	if spec.Decreases != nil {
@@ -1507,6 +1529,7 @@ func (x *Exec) loopBack(st *State, al *activeLoop, from, to *ssa.BasicBlock) {
 	for k, inv := range al.spec.Invs {
 		g, err := env.evalBool(inv.E)
 		if err != nil {
+			x.errorf("%s loop %d invariant %q at the back edge: %v", shortName(fr.fn), al.ord, inv.Src, err)
 			continue
 		}
 		x.emit(st, "loop", fmt.Sprintf("loop%d.keep.%s", al.ord, clauseName(inv, k)), g, x.tagsOf(inv.Tags), inv.Src, token.NoPos)
@@ -1605,9 +1628,17 @@ func (x *Exec) applyHavoc(st *State, ts []target, nowBefore string, al *activeLo
 		}
 		old := st.H(name, g.esort)
 		if g.whole {
-			st.havocH(name, g.esort)
+			nw := st.havocH(name, g.esort)
 			if al != nil {
 				al.whole[name] = true
+			} else if strings.HasPrefix(name, "cell.") {
+				// a callee cannot reach the caller's private cells (locals whose address never escapes);
+				// the ones captured by a closure handed to the callee are havocked by escapeHavoc
+				for _, c := range st.cells {
+					if "cell."+c.es == name && x.cellPrivate(c.alloc) {
+						st.assume(eq(sel(nw, c.ptr), sel(old, c.ptr)))
+					}
+				}
 			}
 			continue
 		}
@@ -1702,4 +1733,83 @@ func (x *Exec) closureFacts(st *State, ts []target) {
 			st.assume("(forall ((" + r + " Int) (" + i + " Int)) (! (or (= (select (select " + cur + " " + r + ") " + i + ") 0) (< (birth (select (select " + cur + " " + r + ") " + i + ")) " + st.now + ")) :pattern ((select (select " + cur + " " + r + ") " + i + "))))")
 		}
 	}
+}
+
+// cellPrivate: the address of the local cell a is used only to load from it, to store to it, and to bind
+// it into closures that are themselves only called or handed to callees as arguments (never stored), and
+// whose code uses the captured address in the same restricted way. Then no code other than the function
+// itself and those closures can reach the cell.
+func (x *Exec) cellPrivate(a *ssa.Alloc) bool {
+	if x.privCache == nil {
+		x.privCache = map[*ssa.Alloc]bool{}
+	}
+	if v, ok := x.privCache[a]; ok {
+		return v
+	}
+	r := ptrUsesPrivate(a, map[ssa.Value]bool{})
+	x.privCache[a] = r
+	return r
+}
+
+func ptrUsesPrivate(p ssa.Value, seen map[ssa.Value]bool) bool {
+	if seen[p] {
+		return true
+	}
+	seen[p] = true
+	refs := p.Referrers()
+	if refs == nil {
+		return false
+	}
+	for _, r := range *refs {
+		switch i := r.(type) {
+		case *ssa.DebugRef:
+		case *ssa.Store:
+			if i.Val == p {
+				return false
+			}
+		case *ssa.UnOp:
+			if i.Op != token.MUL {
+				return false
+			}
+		case *ssa.MakeClosure:
+			if !funcValueNotStored(i, map[ssa.Value]bool{}) {
+				return false
+			}
+			fn := i.Fn.(*ssa.Function)
+			for k, b := range i.Bindings {
+				if b == p && !ptrUsesPrivate(fn.FreeVars[k], seen) {
+					return false
+				}
+			}
+		default:
+			return false
+		}
+	}
+	return true
+}
+
+// funcValueNotStored: the function value v is only called, deferred, converted, or passed as an argument.
+func funcValueNotStored(v ssa.Value, seen map[ssa.Value]bool) bool {
+	if seen[v] {
+		return true
+	}
+	seen[v] = true
+	refs := v.Referrers()
+	if refs == nil {
+		return false
+	}
+	for _, r := range *refs {
+		switch i := r.(type) {
+		case *ssa.DebugRef:
+		case *ssa.Call, *ssa.Defer:
+			// callee position or argument: both fine (no retention by callees: their frames would show it)
+		case *ssa.ChangeType:
+			if !funcValueNotStored(i, seen) {
+				return false
+			}
+		default:
+			return false
+		}
+	}
+	return true
 }
